@@ -287,9 +287,13 @@ def run_instance(d):
         ctx = SymCtx(inst, ex)
         path_outcomes = {}
 
+        import copy
+
         def body():
             ctx._reset_path()
-            return fn(ctx, **inst.params)
+            # a private copy per path: code under test must not be able to change the instance description that a
+            # replay file is later written from (a seeded change did mutate a limits list in place)
+            return fn(ctx, **copy.deepcopy(inst.params))
 
         def on_path(res):
             kind, val = res
